@@ -82,7 +82,11 @@ pub fn run(args: &Args) -> serde_json::Value {
                         "context": ctx, "got": res, "expected": want}));
                 }
                 distinct.insert(format!("{}-{}-{}-{}", timesteps, f, nobs, pattern));
-                coq.push(format!("C20.Scripted {}%nat {}%nat {}%nat {}%nat {} false", timesteps, f, nobs, pattern, cq::qs(&res)));
+                if res.iter().all(|x| x.is_finite()) {
+                    coq.push(format!("C20.Scripted {}%nat {}%nat {}%nat {}%nat {} false", timesteps, f, nobs, pattern, cq::qs(&res)));
+                } else {
+                    oracle_failures.push(json!({"what": "autocorrelation helper returned a non-finite value", "context": ctx}));
+                }
                 if samples_ev.len() < 6 {
                     samples_ev.push(json!({"timesteps": timesteps, "period": f, "observables": nobs, "result_head": res.iter().take(4).collect::<Vec<_>>()}));
                 }
@@ -131,7 +135,11 @@ pub fn run(args: &Args) -> serde_json::Value {
                 }
                 *lens.entry(states.len()).or_insert(0usize) += 1;
                 distinct.insert(format!("real{}", ri));
-                coq.push(format!("C20.Series {} {}", cq::list(&smp, |r| cq::qs(r)), cq::qs(&res)));
+                if res.iter().all(|x| x.is_finite()) {
+                    coq.push(format!("C20.Series {} {}", cq::list(&smp, |r| cq::qs(r)), cq::qs(&res)));
+                } else {
+                    oracle_failures.push(json!({"what": "autocorrelation helper returned a non-finite value on a real sampler", "context": ctx}));
+                }
             }
         }
     }
@@ -170,8 +178,13 @@ pub fn run(args: &Args) -> serde_json::Value {
                         continue;
                     }
                     let want = direct(&smp);
+                    if res[i].iter().any(|x| !x.is_finite()) {
+                        // (a non-finite entry cannot be written as a rational for the Coq side either)
+                        oracle_failures.push(json!({"what": format!("tempering autocorrelation helper returned a non-finite value ({} entries for {} sampled states)", res[i].len(), smp.len()), "context": ctx, "replica": i}));
+                        continue;
+                    }
                     if res[i].len() != want.len() || res[i].iter().zip(want.iter()).any(|(a, b)| (a - b).abs() > 1e-9) {
-                        oracle_failures.push(json!({"what": "tempering autocorrelation differs from the formula applied to the states the driver samples", "context": ctx, "replica": i}));
+                        oracle_failures.push(json!({"what": format!("tempering autocorrelation differs from the formula applied to the states the driver samples ({} entries for {} sampled states)", res[i].len(), smp.len()), "context": ctx, "replica": i}));
                     }
                     coq.push(format!("C20.Series {} {}", cq::list(&smp, |r| cq::qs(r)), cq::qs(&res[i])));
                     distinct.insert(format!("temper{}-{}", ti, i));
